@@ -32,6 +32,8 @@ func main() {
 			Rule: "the same job with reading gated at seeded offsets so that checkpoints are triggered with an idle pipeline, mid flow, with key-by batches pending and back to back; for every checkpoint N, runner r and split i: in every operator stream no record of split i with offset < reported position arrives after r's barrier N and none with offset >= position before it; every splitter incarnation assigns every split exactly once; final state = every keyed event once; non-trivial = >=1 intermediate checkpoint; distinct by (options, positions)"},
 		&lib.Prop{ID: "C16", Part: "bulk-reads", Level: "exploration", NCases: n(8, 150), Run: c16Bulk, Assumptions: clAssume,
 			Rule: "1..2 runners, 1..2 splits of 1500..4000 records, a third of the reads return 300..2500 records at once (the reader's cursor is past the whole read when ReadEvents returns); checkpoints are requested while the records of such reads are flowing (whenever the operators' streams grew by a seeded amount); barrier-cut oracle of part cut on every stream (no record below the reported position after the barrier, none at or above it before), every keyed event exactly once in the final state; non-trivial = >=1 checkpoint during the flow and >=1 read of more than 512 records; distinct by (options, checkpoints)"},
+		&lib.Prop{ID: "C13", Part: "retention-order", Level: "exploration", NCases: n(15, 400), Run: c13RetentionOrder, Assumptions: clAssume,
+			Rule: "a complete job with 1..3 workers; 1..3 episodes in which the next retention update is held at one operator before it is applied while 1..3 further checkpoints complete and are published, then released; at every operator the retention updates are applied in non-decreasing order of the newest checkpoint they name; non-trivial = >=2 updates applied; distinct by (options, episodes)"},
 		&lib.Prop{ID: "C11", Part: "runner-watermarks", Level: "exploration", NCases: n(30, 1200), Run: c11Runner, Assumptions: clAssume,
 			Rule: "the same job with event timestamps increasing / reversed / random / constant / extreme (1970+1ns .. ~2255), 1..4 runners, watermark interval tuned to 1..5 ms; per operator stream and sender: watermarks never decrease, watermark >= largest timestamp delivered earlier in that stream - 1 ns (follows closely), watermark < largest timestamp that runner had keyed when it was delivered (never reaches); non-trivial = always; distinct by options"},
 		&lib.Prop{ID: "C01", Part: "full-restart", Level: "fault_enumeration", NCases: n(25, 800), Run: c01FullRestart,
